@@ -76,11 +76,14 @@ pub fn gen_mc_sys(ctx: &mut Context, rng: &mut Rng, cfg: &McCfg, stats: &mut Sta
     // ---- symbols
     let mut state_syms: Vec<ExprRef> = vec![];
     let mut bits = 0u32;
-    let n_states = rng.range(1, 3);
+    // a chain of init dependencies (c0 init reads c1, c1 init reads c2, ..): extra states, added below
+    let chain_deps: Option<u64> = if cfg.init_reads_later && rng.chance(1, 6) { Some(rng.range(2, 4)) } else { None };
+    let n_states = if chain_deps.is_some() { 1 } else { rng.range(1, 3) };
     let mut last_w: Option<WidthInt> = None;
     for k in 0..n_states {
         // often the same width as the previous state: delay registers / comparisons between states
         let w = match last_w { Some(lw) if rng.chance(1, 3) => lw, _ => *rng.pick(&widths) };
+        let w = if chain_deps.is_some() { w.min(3) } else { w };
         last_w = Some(w);
         if bits + w > cfg.max_state_bits && k > 0 {
             break;
@@ -88,7 +91,7 @@ pub fn gen_mc_sys(ctx: &mut Context, rng: &mut Rng, cfg: &McCfg, stats: &mut Sta
         bits += w;
         state_syms.push(ctx.bv_symbol(&format!("s{k}"), w));
     }
-    if cfg.arrays && rng.chance(1, 5) {
+    if cfg.arrays && chain_deps.is_none() && rng.chance(1, 5) {
         let iw = rng.range(1, 2) as WidthInt;
         let dw = rng.range(1, 2) as WidthInt;
         let b = (1u32 << iw) * dw;
@@ -103,7 +106,7 @@ pub fn gen_mc_sys(ctx: &mut Context, rng: &mut Rng, cfg: &McCfg, stats: &mut Sta
     let mut ibits = 0u32;
     for k in 0..rng.range(0, 2) {
         let w = *rng.pick(&widths);
-        if ibits + w > cfg.max_input_bits {
+        if ibits + w > (if chain_deps.is_some() { cfg.max_input_bits.min(3) } else { cfg.max_input_bits }) {
             break;
         }
         ibits += w;
@@ -267,6 +270,91 @@ pub fn gen_mc_sys(ctx: &mut Context, rng: &mut Rng, cfg: &McCfg, stats: &mut Sta
             }
         }
     }
+    // ---- a chain of init dependencies, declared against / across / along the dependency order:
+    // c0 init f(c1), c1 init f(c2), .., the last one free, constant or an input expression.  The init
+    // expressions are bare states, small terms, a term that uses a sub-term over the read state twice
+    // (an init-only signal that reads a state) or a sub-term over the LAST chain state shared by
+    // several init expressions.
+    let mut chain_syms: Vec<ExprRef> = vec![];
+    if let Some(deps) = chain_deps {
+        let deps = deps as usize;
+        let cw: WidthInt = if deps == 2 && rng.chance(1, 2) { 2 } else { 1 };
+        chain_syms = (0..=deps).map(|i| ctx.bv_symbol(&format!("c{i}"), cw)).collect();
+        let one = ctx.bv_lit(&baa::BitVecValue::from_u64(1, cw));
+        let in_term: Option<ExprRef> = input_syms.first().map(|i| {
+            let iw = i.get_bv_type(ctx).unwrap();
+            if iw == cw { *i } else if iw > cw { ctx.slice(*i, cw - 1, 0) } else { ctx.zero_extend(*i, cw - iw) }
+        });
+        let last = chain_syms[deps];
+        let over_last = match in_term { Some(t) if rng.chance(1, 2) => ctx.xor(last, t), _ => ctx.add(last, one) };
+        let mut chain: Vec<State> = vec![];
+        for i in 0..=deps {
+            let me = chain_syms[i];
+            let init = if i == deps {
+                match rng.below(3) {
+                    0 => None,
+                    1 => Some(ctx.bv_lit(&lit_value(rng, cw))),
+                    _ => in_term,
+                }
+            } else {
+                let nxt = chain_syms[i + 1];
+                Some(match rng.below(6) {
+                    0 => nxt,
+                    1 => ctx.not(nxt),
+                    2 => ctx.add(nxt, one),
+                    3 => {
+                        let t = ctx.add(nxt, one);
+                        features.push("init-chain:init-signal-reads-state");
+                        // (no multiplication: z3 takes seconds on 1-bit bvmul in logic ALL)
+                        let u = ctx.sub(t, one);
+                        ctx.or(t, u)
+                    }
+                    4 => match in_term { Some(t) => ctx.xor(nxt, t), None => ctx.sub(nxt, one) },
+                    _ => {
+                        features.push("init-chain:shared-term-over-last");
+                        ctx.xor(nxt, over_last)
+                    }
+                })
+            };
+            let next = match rng.below(4) {
+                0 | 1 => Some(me),
+                2 => None,
+                _ => Some(ctx.add(me, one)),
+            };
+            chain.push(State { symbol: me, init, next });
+        }
+        // declaration order of the chain
+        let mut order: Vec<usize> = (0..=deps).collect();
+        match rng.below(5) {
+            0 | 1 => features.push("init-chain-against-declaration-order"),
+            2 | 3 => {
+                for i in (1..order.len()).rev() {
+                    let j = rng.below(i as u64 + 1) as usize;
+                    order.swap(i, j);
+                }
+                features.push("init-chain-shuffled");
+            }
+            _ => {
+                order.reverse();
+                features.push("init-chain-along-declaration-order");
+            }
+        }
+        let mut all: Vec<State> = order.iter().map(|i| chain[*i].clone()).collect();
+        for st in std::mem::take(&mut sys.states) {
+            let pos = rng.below(all.len() as u64 + 1) as usize;
+            all.insert(pos, st);
+        }
+        for st in all {
+            sys.add_state(ctx, st);
+        }
+        // the head of the chain is observed
+        let lit = ctx.bv_lit(&lit_value(rng, cw));
+        let b = ctx.equal(chain_syms[0], lit);
+        sys.bad_states.push(b);
+        stats.bump("init_chain_deps", &format!("{deps}"));
+    }
+    let all_syms: Vec<ExprRef> = all_syms.iter().chain(chain_syms.iter()).copied().collect();
+    let bv_states: Vec<ExprRef> = bv_states.iter().chain(chain_syms.iter()).copied().collect();
     for st in sys.states.iter() {
         stats.bump(
             "state_kind",
